@@ -241,6 +241,7 @@ def _check_one(pc, insts, goal, timeout_ms, use_cvc5, cross=False):
         if guarded_check(s0, short) == z3.unsat:
             return "discharged", "z3", None, None, hashlib.sha256(s0.sexpr().encode()).hexdigest()[:16]
     schedule = [(0, short), (7, short), (13, short), (29, timeout_ms)]
+    cvc5_sat = False
     for k, (seed, tmo) in enumerate(schedule):
         s = z3.Solver()
         s.set("timeout", tmo)
@@ -282,12 +283,19 @@ def _check_one(pc, insts, goal, timeout_ms, use_cvc5, cross=False):
                 if r2 == "unsat":
                     return "discharged", "cvc5", None, None, h
                 if r2 == "sat":
-                    return "failed", "cvc5", None, smt2, h
+                    # cvc5 gives no model to validate here: its "sat" only counts when z3 cannot decide the query within
+                    # the whole schedule AND cvc5 repeats the answer (a lone "sat" for a query that z3 then proves unsat
+                    # was observed once under heavy load and could not be reproduced: such an answer is not believed)
+                    cvc5_sat = True
+    if cvc5_sat and use_cvc5 and smt2 is not None:
+        if run_cvc5(smt2, timeout_ms) == "sat":
+            return "failed", "cvc5", None, smt2, h
+        return "unknown", "z3+cvc5", None, smt2, h
     if use_cvc5 and smt2 is not None and "last_indexof" not in smt2:
         r2 = run_cvc5(smt2, timeout_ms)
         if r2 == "unsat":
             return "discharged", "cvc5", None, None, h
-        if r2 == "sat":
+        if r2 == "sat" and run_cvc5(smt2, timeout_ms) == "sat":
             return "failed", "cvc5", None, smt2, h
     # the quantified hypotheses make a definite "sat" impossible for the solver; a model of the
     # quantifier-free part (plus the ground instances) is still a *candidate* counterexample.
